@@ -27,6 +27,10 @@ import (
 	"k8s.io/klog"
 )
 
+// impersonateHeaderPrefix is the canonical prefix shared by all impersonation headers,
+// e.g. Impersonate-User, Impersonate-Group, Impersonate-Uid and Impersonate-Extra-*.
+const impersonateHeaderPrefix = "Impersonate-"
+
 type requestCanceler interface {
 	CancelRequest(*http.Request)
 }
@@ -67,6 +71,13 @@ func (rt *dynamicImpersonatingRoundTripper) WrapRequest(req *http.Request) (*htt
 	}
 
 	req = net.CloneRequest(req)
+	// drop every Impersonate-* header sent by the client, the upstream must
+	// only see the impersonation headers generated below
+	for k := range req.Header {
+		if strings.HasPrefix(http.CanonicalHeaderKey(k), impersonateHeaderPrefix) {
+			delete(req.Header, k)
+		}
+	}
 	req.Header.Set(transport.ImpersonateUserHeader, requestor.GetName())
 
 	for _, group := range requestor.GetGroups() {
